@@ -45,13 +45,14 @@ Definition pow_capped (a b : Z) : option Z :=
   if Z.abs a <=? 1 then Some (if b =? 0 then 1 else if Z.even b then a * a else a)
   else if 256 <? b * Z.log2 (Z.abs a) then None else Some (a ^ b).
 
-(* ---- the listed known findings (known/C08.json), as decidable descriptions of the inputs ----
+(* ---- the listed known finding (known/C08.json), as a decidable description of the inputs ----
    neg-2p127: the unary minus of 2^127 - as the operator applied to that number, or as the
-              literal -170141183460469231731687303715884105728 used as an operand;
-   pow-exponent-beyond-u32: ** with a base in {-1, 0, 1} and an exponent above 2^32 - 1. *)
+              literal -170141183460469231731687303715884105728 used as an operand. *)
 Definition known_operand (is_literal : bool) (z : Z) : bool := is_literal && (z =? - 2 ^ 127).
 Definition known_neg (a : Z) : bool := a =? 2 ^ 127.
-Definition known_pow (a b : Z) : bool := (Z.abs a <=? 1) && (2 ^ 32 - 1 <? b).
+(* a whole case: `-a` ([unary]) or `a OP b` / a comparison; [a_lit], [b_lit]: the operand is a literal in the text *)
+Definition known (unary a_lit : bool) (a : Z) (b_lit : bool) (b : Z) : bool :=
+  known_operand a_lit a || negb unary && known_operand b_lit b || unary && known_neg a.
 
 (* the exact comparison *)
 Definition exact_cmp (a b : Z) : bool * bool * bool := (a <? b, a =? b, b <? a).
